@@ -114,8 +114,22 @@ def group_inflate(recs):
         g["calls"] += [0] * len(r["calls"])
     return list(groups.values())
 
+def deflate_stream_table():
+    """DeflateStreamOps!CallEnds tabulated by TLC (spec/gen/GenDeflateStream.tla); cached by the hash of the spec"""
+    import hashlib, glob
+    h = hashlib.sha256(open(os.path.join(SPEC, "DeflateStreamOps.tla"), "rb").read() + open(os.path.join(SPEC, "gen/GenDeflateStream.tla"), "rb").read()).hexdigest()[:16]
+    cache = os.path.join(BUILD, "deflatestream-table-%s.ndjson" % h)
+    if not os.path.exists(cache):
+        os.makedirs(BUILD, exist_ok=True)
+        for old in glob.glob(os.path.join(BUILD, "deflatestream-table-*")): os.remove(old)
+        tmp = cache + ".tmp%d" % os.getpid()
+        tlc("gen/GenDeflateStream", env={"VERIF_OUT": tmp}, timeout=1200, xmx="4g")
+        os.rename(tmp, cache)
+    return cache
+
 def judge(module, recs, wd, tag, shards=8, timeout=3000, weight=None):
     """run a trace-validation module over the scenario records, sharded over several TLC JVMs (balanced by input size)"""
+    dstab = deflate_stream_table() if module.endswith("TraceDeflate") else None
     shards = max(1, min(shards, len(recs)))
     w = weight or (lambda r: len(r.get("inp", [])) + 50 * len(r.get("calls", [])) + 200)
     order = sorted(range(len(recs)), key=lambda i: -w(recs[i]))
@@ -125,7 +139,9 @@ def judge(module, recs, wd, tag, shards=8, timeout=3000, weight=None):
     def one(i):
         a, b = os.path.join(wd, "tv-%s-%d.in" % (tag, i)), os.path.join(wd, "tv-%s-%d.out" % (tag, i))
         write_ndjson(a, parts[i])
-        r = tlc(module, wd=wd, env={"VERIF_IN": a, "VERIF_OUT": b}, timeout=timeout, xmx="3g", gc="serial")
+        env = {"VERIF_IN": a, "VERIF_OUT": b}
+        if module.endswith("TraceDeflate"): env["VERIF_DSTAB"] = dstab
+        r = tlc(module, wd=wd, env=env, timeout=timeout, xmx="3g", gc="serial")
         return read_ndjson(b), r["wall"]
     with cf.ThreadPoolExecutor(shards) as ex:
         outs = list(ex.map(one, range(shards)))
